@@ -35,14 +35,13 @@ def r_maxub(ctx, rule='R11.b'):
     b = ctx.body('subproblem_ranking::MaxUB', 'compare', trait='SubProblemRanking')
     rt = _ret_term(b)
     sp = lambda t, f, i: is_subproblem_field(t, f) and M.is_param(t[1], index=i)
-    good = M.is_call(rt, 'then_with') and M.is_call(rt[2][0], 'then_with') and M.is_call(rt[2][0][2][0], 'Ord::cmp')
+    # then / then_with chains are in normal form ('lex', (c1, c2, c3)) whatever their nesting or the helpers they go through
+    good = isinstance(rt, tuple) and rt and rt[0] == 'lex' and len(rt[1]) == 3
     if good:
-        c1 = rt[2][0][2][0]
-        good = sp(c1[2][0], 'ub', 1) and sp(c1[2][1], 'ub', 2)
-        r2 = _closure_ret(ctx.F, rt[2][0][2][1])
-        good = good and r2 is not None and M.is_call(r2, 'Ord::cmp') and sp(r2[2][0], 'value', 1) and sp(r2[2][1], 'value', 2)
-        r3 = _closure_ret(ctx.F, rt[2][1])
-        good = good and r3 is not None and M.is_call(r3, 'StateRanking::compare') and sp(r3[2][1], 'state', 1) and sp(r3[2][2], 'state', 2)
+        (c1, r2, r3) = rt[1]
+        good = M.is_call(c1, 'Ord::cmp') and sp(c1[2][0], 'ub', 1) and sp(c1[2][1], 'ub', 2)
+        good = good and M.is_call(r2, 'Ord::cmp') and sp(r2[2][0], 'value', 1) and sp(r2[2][1], 'value', 2)
+        good = good and M.is_call(r3, 'StateRanking::compare') and sp(r3[2][1], 'state', 1) and sp(r3[2][2], 'state', 2)
     if not good:
         good = _lexico_table(ctx, b, sp)
     ctx.check(good, rule, 'maxub-order', b, b.loc(0), 'MaxUB::compare(l, r) = l.ub ? r.ub, then l.value ? r.value, then ranking(l.state, r.state), operands in that order',
@@ -320,16 +319,27 @@ def r_nodup(ctx):
     new_root = lambda t: M.contains(t, lambda x: (isinstance(x, tuple) and x and x[0] == 'index' and _nd_field(x[1], 'heap') and M.is_const(x[2], 0)) or first_call(x))
     good = any(M.is_const(v, 0) and new_root(d[2]) for (pt, d, v) in pw)
     bd = aggr_assigns(qb, 'Action', 'BubbleDown')
-    good = good and bool(bd)
-    if good:
+    nonempty = lambda atoms, lit: any(empty_lit(a_, lambda x: _nd_field(x, 'heap'), empty=False) or opt_is(a_, first_call, 'Some') for a_ in atoms)
+    direct = [(bb, t) for (bb, t) in qb.calls_to('bubble_down')]
+    if good and bd:
+        # spelling 1: an Action::BubbleDown(new root) handed to process_action
         v = qb.origin.rvalue(bd[0][2]['rv'], (bd[0][0], bd[0][1]))
         good = new_root(v)
-        ok, cut, bad_ = M.guarded(qb, [(bd[0][0], bd[0][1])], lambda atoms, lit: any(
-            empty_lit(a_, lambda x: _nd_field(x, 'heap'), empty=False) or opt_is(a_, first_call, 'Some') for a_ in atoms))
+        ok, cut, bad_ = M.guarded(qb, [(bd[0][0], bd[0][1])], nonempty)
         good = good and ok
         pa_ = call_points(qb, 'process_action')
         r = qb.reach(qb.after(srp), avoid=pa_)
         good = good and bool(pa_) and not any(p in r for p in ret_points(qb))
+    elif good and direct:
+        # spelling 2: bubble_down(new root) called directly, on every non-empty path after the removal
+        (dbb, dt) = direct[0]
+        v = qb.origin.operand(dt['args'][1], qb.term_point(dbb))
+        ok, cut, bad_ = M.guarded(qb, [qb.term_point(dbb)], nonempty)
+        r = qb.reach(qb.after(srp), avoid=[qb.term_point(dbb)], cut_edges=_cut_edges(qb, lambda atoms, lit: any(
+            empty_lit(a_, lambda x: _nd_field(x, 'heap'), empty=True) or opt_is(a_, first_call, 'None') for a_ in atoms)))
+        good = new_root(v) and ok and len(direct) == 1 and not any(p in r for p in ret_points(qb))
+    else:
+        good = False
     ctx.check(good, 'R11.c', 'pop/new-root-sunk', qb, qb.loc(sbb), 'the element moved to the root gets pos = 0 and is bubbled down (when the heap is not empty)', 'after removing the root the moved element is not (pos := 0, BubbleDown) on the non-empty path')
     # ---- swaps in bubble_up / bubble_down keep pos and heap inverse of each other ---------------------------------
     for fn in ('bubble_up', 'bubble_down'):
@@ -383,10 +393,17 @@ def r_nodup(ctx):
     ctx.check(good, 'R11.g', 'compare_at_pos', cb2, cb2.loc(0), 'compare_at_pos(x, y) = cmp(nodes[heap[x]], nodes[heap[y]])', 'compare_at_pos returns %s' % M.show(rt)[:200])
     pr = ctx.body(ND, 'process_action')
     good = True
+    _, ainfo = ctx.F.adt('no_duplicate::Action')
+    avariants = [v['name'] for v in (ainfo or {}).get('variants', [])]
+    ndisp = 0
     for (var, fn) in (('BubbleUp', 'bubble_up'), ('BubbleDown', 'bubble_down')):
+        if var not in avariants:
+            continue        # an action nobody can request any more (its callers call the routine directly: checked where they do)
+        ndisp += 1
         cs = pr.calls_to(fn)
         ok, cut, bad_ = M.guarded(pr, [pr.term_point(bb) for (bb, t) in cs], lambda atoms, lit, var=var: any(a_[0] == 'in' and a_[2] == frozenset([var]) for a_ in atoms))
         good = good and len(cs) == 1 and ok
+    good = good and ndisp >= 1
     ctx.check(good, 'R11.c', 'process_action', pr, pr.loc(0), 'process_action dispatches BubbleUp -> bubble_up, BubbleDown -> bubble_down', 'process_action does not dispatch the actions to the matching routine')
 
 
@@ -540,6 +557,7 @@ def r_heap_index(ctx, rule='R11.f'):
     right = lambda t: M.is_call(t, 'right_child') and M.is_param(t[2][1], index=1)
     size = lambda t: M.is_call(t, 'len') and (M.is_param(t[2][0], index=0) or _nd_field(t[2][0], 'heap'))
     rows = []
+    kinds = set()
     for (edges, blocks, end) in M.enumerate_paths(mc, (0, 0)):
         atoms = M.path_atoms(mc, edges)
         if not M.consistent(atoms):
@@ -559,7 +577,10 @@ def r_heap_index(ctx, rule='R11.f'):
         if ord_names(atoms, lambda t: M.is_call(t, 'compare_at_pos') and not is_cmp_lr(t)) is not None:
             cmpres = {'?'}
         rt = _path_ret(mc, blocks, end)
-        out = '0' if M.is_const(rt, 0) else 'left' if left(rt) else 'right' if right(rt) else M.show(rt)[:40]
+        # 'no child' is the sentinel 0 (the root is nobody's child) or None when the helper returns an Option
+        some = lambda t, p_: isinstance(t, tuple) and t[:3] == ('aggr', M.OPTION, 'Some') and p_(t[3][0][1])
+        out = '0' if (M.is_const(rt, 0) or rt == M.MK_NONE) else 'left' if (left(rt) or some(rt, left)) else 'right' if (right(rt) or some(rt, right)) else M.show(rt)[:40]
+        kinds.add('option' if (rt == M.MK_NONE or some(rt, lambda x: True)) else 'plain')
         rows.append((rl, rr, cmpres, out))
     bad = []
     for (rl, rr, cmpres, out) in rows:
@@ -580,6 +601,8 @@ def r_heap_index(ctx, rule='R11.f'):
     only_left = [r_ for r_ in rows if '<' in r_[0] and (r_[1] & frozenset('>=')) and r_[3] != 'left' and r_[0] == frozenset('<')]
     if only_left:
         bad.append(('left < len <= right does not return left', only_left[0][3]))
+    if len(kinds) > 1:
+        bad.append(('mixes Option and plain results',))
     ctx.stats['paths'] += len(rows)
     ctx.check(not bad and len(rows) >= 4, rule, 'max_child_of-table', mc, mc.loc(0),
               'max_child_of: 0 (leaf) only when left >= len; left when right >= len; otherwise the greater of the two children (%d paths)' % len(rows),
